@@ -260,6 +260,11 @@ where
     let mut mean = zero;
     let mut s = zero;
     for (&x, &w) in arr.iter().zip(weights.iter()) {
+        if w == zero {
+            // An observation of zero weight contributes nothing; skipping it
+            // avoids `0 / 0` when no weight has been accumulated yet.
+            continue;
+        }
         weight_sum += w;
         let x_minus_mean = x - mean;
         mean += (w / weight_sum) * x_minus_mean;
